@@ -467,6 +467,73 @@ fn single_history(rep: &mut Report, rng: &mut Rng, idx: u64) {
     }
 }
 
+/// A successor appender is built on the same path while its predecessor is still alive and still written
+/// to (the order a reconfiguration uses): every acknowledged record stays whole and in call order.
+fn overlapping_restart(rep: &mut Report, rng: &mut Rng, idx: u64) {
+    use log4rs::append::rolling_file::policy::compound::trigger::size::SizeTrigger;
+    let sc = Scratch::new("c05o");
+    let mk = |sc: &Scratch| crate::rolling::build_appender(&sc.path, true, Box::new(crate::frames::ChunkEnc { pieces: 1 }),
+        Box::new(SizeTrigger::new(1 << 40)), Box::new(log4rs::append::rolling_file::policy::compound::roll::delete::DeleteRoller::new()));
+    let mut expect: Vec<u8> = vec![];
+    let mut live: Vec<(u32, log4rs::append::rolling_file::RollingFileAppender)> = vec![];
+    let mut next_tid = 1u32;
+    let mut seq = 0u32;
+    let mut order = String::new();
+    match mk(&sc) {
+        Ok(a) => live.push((next_tid, a)),
+        Err(e) => {
+            rep.inconclusive(&format!("cannot build a rolling appender: {}", e));
+            return;
+        }
+    }
+    for _ in 0..(6 + rng.usize_below(20)) {
+        match rng.below(5) {
+            0 if live.len() < 3 => {
+                next_tid += 1;
+                match mk(&sc) {
+                    Ok(a) => live.push((next_tid, a)),
+                    Err(e) => {
+                        rep.violation("C05:overlapping-restart:build-failed", json!({"order": order, "error": e.to_string()}));
+                        return;
+                    }
+                }
+                order.push_str(" +new");
+            }
+            1 if live.len() > 1 => {
+                live.remove(0);
+                order.push_str(" -old");
+            }
+            _ => {
+                let k = rng.usize_below(live.len());
+                let (tid, app) = &live[k];
+                let len = *rng.pick(&[0usize, 7, 100, 1100]);
+                let a = append_frame(app, *tid, seq, len, true);
+                if let Some(p) = take_panic() {
+                    rep.violation("C05:panic:append", json!({"order": order, "panic": p}));
+                    return;
+                }
+                if !a.ok {
+                    rep.violation("C05:append-failed", json!({"order": order}));
+                    return;
+                }
+                expect.extend(frame(*tid, seq, len));
+                order.push_str(&format!(" w{}", tid));
+                seq += 1;
+                rep.count("appends_with_overlapping_appenders", 1);
+                let got = std::fs::read(sc.join(ACTIVE)).unwrap_or_default();
+                if got != expect {
+                    rep.violation("C05:overlapping-restart:acknowledged-record-overwritten-or-misplaced", json!({"order": order,
+                        "file_len": got.len(), "expected_len": expect.len(),
+                        "file_tail": crate::fsutil::show_bytes(&got[got.len().saturating_sub(100)..]),
+                        "expected_tail": crate::fsutil::show_bytes(&expect[expect.len().saturating_sub(100)..])}));
+                    return;
+                }
+            }
+        }
+    }
+    rep.case(&format!("overlap|{}|{}", order, idx), true);
+}
+
 fn concurrent_run(rep: &mut Report, rng: &mut Rng, idx: u64) {
     let sc = Scratch::new("c05c");
     let threads = 2 + rng.usize_below(7);
@@ -568,6 +635,7 @@ pub fn run(rep: &mut Report) {
     rep.assume("histories have at most a few hundred records; the time trigger runs on the driven clock only");
     let thorough = rep.tier == "thorough";
     run_cases(rep, "single", if thorough { 15_000 } else { 2_500 }, single_history);
+    run_cases(rep, "overlap", if thorough { 2000 } else { 300 }, overlapping_restart);
     let saved = std::env::var("L4V_JOBS").ok();
     std::env::set_var("L4V_JOBS", "4");
     run_cases(rep, "concurrent", if thorough { 400 } else { 60 }, concurrent_run);
